@@ -239,7 +239,7 @@ func c01Gen(r *rand.Rand, tier string) []string {
 	n, nIll, nBorder := 4500, 1500, 200
 	budget := 300000.0
 	if tier == "thorough" {
-		n, nIll, nBorder = 100000, 40000, 4000
+		n, nIll, nBorder = 150000, 60000, 6000
 		budget = 500000.0
 	}
 	var out []string
@@ -417,7 +417,7 @@ func c01Run(input string) string {
 	if n == 0 {
 		tmin, tmax = 0, 0
 	}
-	// tokens shown to the Spec: the first and last 12, 24 spread deterministically, the places where the spacing
+	// tokens shown to the Spec: the first and last 12, 24 (thorough: 64) spread deterministically, the places where the spacing
 	// changes most abruptly (a local glitch), and for step profiles the tokens around every change of level
 	idx := map[int]bool{}
 	for i := 0; i < 12 && i < n; i++ {
@@ -429,7 +429,11 @@ func c01Run(input string) string {
 		h = h*31 + int64(c)
 	}
 	rr := rand.New(rand.NewSource(h))
-	for i := 0; i < 24 && n > 0; i++ {
+	spread := 24
+	if drv.Tier == "thorough" {
+		spread = 64
+	}
+	for i := 0; i < spread && n > 0; i++ {
 		idx[rr.Intn(n)] = true
 	}
 	if n >= 3 {
